@@ -95,6 +95,13 @@ def h_propagate(ex):
     tof = ex.real('tof', 1e-9, 1e-5)
     rs = ex.real('rs', -1, 1)
     rp = ex.real('rp', -1, 1)
+    if ex.case.get('cfres'):
+        # total internal reflection: complex coefficients (a phase per polarization)
+        rsi, rpi = ex.real('rs_im', -1, 1), ex.real('rp_im', -1, 1)
+        ex.assume(rs * rs + rsi * rsi <= 1)
+        ex.assume(rp * rp + rpi * rpi <= 1)
+        rs = P.cmk(rs, rsi) if ex.sym else complex(rs, rsi)
+        rp = P.cmk(rp, rpi) if ex.sym else complex(rp, rpi)
     g = UFun(ex, 'att', lo=1e-3, hi=1.0, concrete=lambda f: math.exp(-abs(f) * 2e-9))
     th_e, th_r = ex.case.get('angles', (1.1, 0.8))
     path = _path(ex, cls, th_e, th_r, g, rs, rp, tof)
@@ -367,12 +374,17 @@ HARNESSES = [
                              {'cls': 'basic', 'n': 2, 'pol': True, 'interp': None,
                               'polvec': (0.0, 1.0, 0.0), 'angles': (2.0, 2.4)},
                              {'cls': 'uniform', 'n': 2, 'pol': True},
-                             {'cls': 'uniform', 'n': 3, 'pol': False}],
+                             {'cls': 'uniform', 'n': 3, 'pol': False},
+                             {'cls': 'basic', 'n': 2, 'pol': True, 'interp': None, 'cfres': True},
+                             {'cls': 'uniform', 'n': 3, 'pol': True, 'cfres': True}],
                    'thorough': [{'cls': 'basic', 'n': 2, 'pol': True, 'interp': None, '_twins': 1}]
                    + [{'cls': 'basic', 'n': n, 'pol': pl, 'interp': it, 'angles': an}
                       for n in (2, 3, 4) for pl in (True, False) for it in (None, 0.1, 0.5, 1.0)
                       for an in ((1.1, 0.8), (2.0, 2.4))] +
                    [{'cls': 'uniform', 'n': n, 'pol': pl} for n in (2, 3, 4) for pl in (True, False)]
+                   + [{'cls': c, 'n': n, 'pol': True, 'interp': None, 'cfres': True}
+                      for c in ('basic', 'uniform') for n in (2, 3, 4)]
+                   + [{'cls': 'basic', 'n': 3, 'pol': True, 'interp': 0.5, 'cfres': True}]
                    + [{'cls': c, 'n': 2, 'pol': True, 'interp': None, 'polvec': pv}
                       for c in ('basic', 'uniform') for pv in ((0.0, 0.0, 0.7), (0.0, 1.0, 0.0))]},
             budget={'quick': {'wall_s': 300, 'query_timeout_ms': 60000}}),
